@@ -364,6 +364,23 @@ def splitCRLF : Bool → Str → Str → List Str
     else if c == '\r' then splitCRLF true (if cr then '\r' :: acc else acc) rest
     else splitCRLF false (c :: (if cr then '\r' :: acc else acc)) rest
 
+/-- `%0wd` -/
+def padNat (w n : Nat) : Str := List.replicate (w - (natStr n).length) '0' ++ natStr n
+
+def weekdayNames : List String := ["Mon", "Tue", "Wed", "Thu", "Fri", "Sat", "Sun"]
+def monthNames : List String := ["Jan", "Feb", "Mar", "Apr", "May", "Jun", "Jul", "Aug", "Sep", "Oct", "Nov", "Dec"]
+
+/-- mirrors BaseHTTPRequestHandler.date_time_string = email.utils.formatdate(timestamp, usegmt=True):
+    `'%s, %02d %s %04d %02d:%02d:%02d GMT'` (weekday 0 = Monday, month 1 = January) -/
+def dateString (wd d mon y hh mm ss : Nat) : Str :=
+  (weekdayNames.getD wd "???").toList ++ ", ".toList ++ padNat 2 d ++ ' ' :: (monthNames.getD (mon - 1) "???").toList ++
+  ' ' :: padNat 4 y ++ ' ' :: padNat 2 hh ++ ':' :: padNat 2 mm ++ ':' :: padNat 2 ss ++ " GMT".toList
+
+/-- mirrors pywbem/_listener.py: ListenerRequestHandler.version_string:
+    `"pywbem-listener/{0} {1} {2} "` with pywbem's version, `server_version` and `sys_version` of http.server -/
+def versionString (pywbemVersion serverVersion sysVersion : Str) : Str :=
+  "pywbem-listener/".toList ++ pywbemVersion ++ ' ' :: serverVersion ++ ' ' :: sysVersion ++ [' ']
+
 /-! ## parse_export_request -/
 
 /-- what do_POST distinguishes about a failed parse -/
@@ -852,6 +869,91 @@ def serve (cfg : Cfg) (E : Env) (s : LState) (rawLine : Str) (hdrFault : Bool) (
       | none => (s, emitError ver 501)
       | some (.error e) => (s, .dropped e)
       | some (.ok (s', rsp)) => (s', render ver rsp)
+
+/-! ## the header section (http.client.parse_headers = _read_headers + email.feedparser, compat32 policy)
+
+mirrors CPython 3.12 Lib/http/client.py: _read_headers (readline up to the blank line, _MAXLINE, _MAXHEADERS), parse_headers;
+  Lib/email/feedparser.py: BufferedSubFile.push (str.splitlines(True)), FeedParser._parsegen (header lines = the
+  longest prefix of lines matching headerRE), _parse_headers (continuation lines, `From ` lines, empty names);
+  Lib/email/_policybase.py: Compat32.header_source_parse (value = text after the first colon, blanks stripped on
+  the left, continuation lines appended unchanged, trailing CR/LF removed). -/
+
+/-- `fp.readline()` pieces of `_read_headers`: lines ending in LF, up to and including the blank line -/
+def readHeaderLines : Str → Str → List Str
+  | cur, [] => if cur = [] then [] else [cur.reverse]
+  | cur, c :: cs =>
+    if c == '\n' then
+      let line := ('\n' :: cur).reverse
+      if line = ['\r', '\n'] ∨ line = ['\n'] then [line] else line :: readHeaderLines [] cs
+    else readHeaderLines (c :: cur) cs
+
+/-- LineTooLong / "got more than 100 headers" ⇒ parse_request answers 431 -/
+def headerFault (lines : List Str) : Bool := lines.any (fun l => l.length > 65536) || lines.length > 100
+
+/-- line ends the feed parser cracks at (CPython 3.12 BufferedSubFile.push: universal newlines CR, LF, CR LF only;
+    VT, FF, FS, GS, RS, NEL stay inside the line — found by K) -/
+def isLineBreak (c : Char) : Bool := c.toNat == 0x0A || c.toNat == 0x0D
+
+/-- `str.splitlines(keepends=True)` on Latin-1 text; `cr`: the current line already ends in a CR that may still
+    be followed by its LF -/
+def splitLines : Bool → Str → Str → List Str
+  | _, cur, [] => if cur = [] then [] else [cur.reverse]
+  | cr, cur, c :: cs =>
+    if cr then
+      if c == '\n' then ('\n' :: cur).reverse :: splitLines false [] cs
+      else if c == '\r' then cur.reverse :: splitLines true ['\r'] cs
+      else if isLineBreak c then cur.reverse :: [c] :: splitLines false [] cs
+      else cur.reverse :: splitLines false [c] cs
+    else if c == '\r' then splitLines true ('\r' :: cur) cs
+    else if isLineBreak c then (c :: cur).reverse :: splitLines false [] cs
+    else splitLines false (c :: cur) cs
+
+def isHdrNameChar (c : Char) : Bool :=
+  let n := c.toNat
+  (0x21 ≤ n && n ≤ 0x39) || (0x3B ≤ n && n ≤ 0x7E)
+
+/-- feedparser `headerRE`: `From `, or name characters then a colon, or a leading blank/TAB -/
+def isHeaderLine (l : Str) : Bool :=
+  "From ".toList.isPrefixOf l ||
+  (match l.dropWhile isHdrNameChar with | ':' :: _ => true | _ => false) ||
+  (match l with | c :: _ => c == ' ' || c == '\t' | [] => false)
+
+def rstripCRLFs (s : Str) : Str := rstripCRLF s
+
+/-- Compat32.header_source_parse on the collected source lines of one header -/
+def headerOf (name : Str) (first : Str) (conts : List Str) : Str × Str :=
+  (name, rstripCRLFs (((first.drop (name.length + 1)).dropWhile (fun c => c == ' ' || c == '\t')) ++ conts.flatten))
+
+/-- FeedParser._parse_headers: (current header name, its first line, its continuation lines reversed) -/
+def parseHeaderLines : Option (Str × Str × List Str) → List Str → List (Str × Str)
+  | cur, [] => match cur with | some (n, f, cs) => [headerOf n f cs.reverse] | none => []
+  | cur, l :: ls =>
+    match l with
+    | c :: _ =>
+      if c == ' ' || c == '\t' then
+        match cur with
+        | some (n, f, cs) => parseHeaderLines (some (n, f, l :: cs)) ls
+        | none => parseHeaderLines none ls                       -- defect: continuation without a header
+      else
+        let flushed := match cur with | some (n, f, cs) => [headerOf n f cs.reverse] | none => []
+        if "From ".toList.isPrefixOf l then flushed ++ parseHeaderLines none ls
+        else
+          let name := l.takeWhile (fun x => x != ':')
+          if name = [] then flushed ++ parseHeaderLines none ls  -- defect: empty header name
+          else flushed ++ parseHeaderLines (some (name, l, [])) ls
+    | [] => parseHeaderLines cur ls
+
+/-- http.client.parse_headers on the text behind the request line: `none` = 431 -/
+def parseHeaders (text : Str) : Option (List (Str × Str)) :=
+  let raw := readHeaderLines [] text
+  if headerFault raw then none
+  else some (parseHeaderLines none ((splitLines false [] raw.flatten).takeWhile isHeaderLine))
+
+/-- one connection from the raw octets behind the request line on (header section, then body) -/
+def serveRaw (cfg : Cfg) (E : Env) (s : LState) (rawLine : Str) (rest : Str) (body : List Nat) : LState × Wire :=
+  match parseHeaders rest with
+  | none => serve cfg E s rawLine true [] body
+  | some hs => serve cfg E s rawLine false hs body
 
 /-! ## handler threads: one thread per connection (socketserver.ThreadingMixIn.process_request)
 
